@@ -206,6 +206,11 @@ func (m *Machine) RunJob(fn *ssa.Function, arg int, res *JobResult) {
 					outcome = p.reason
 				}
 			case engineError:
+				if strings.Contains(p.msg, "step limit") && !ex.replaying() {
+					// possible non-termination: hand the model to the native replay,
+					// which decides (a hang under a timeout is the confirmation)
+					ex.addCex("step limit exceeded (possible non-termination): "+firstLine(p.msg), ex.model())
+				}
 				ex.inconclusive(firstLine(p.msg))
 				if os.Getenv("GOSYM_DEBUG") != "" {
 					fmt.Fprintln(os.Stderr, "engine error:", p.msg)
